@@ -21,9 +21,15 @@ pub const TIP_TIME: u128 = 1_757_611_408_000;
 /// A cost model of the right arity for each language (values are irrelevant to the properties; the
 /// language view is only hashed).
 pub fn cost_models() -> HashMap<u8, Vec<i64>> {
-    let v1: Vec<i64> = (0..166).map(|i| 1000 + i * 7).collect();
-    let v2: Vec<i64> = (0..175).map(|i| 2000 + i * 5).collect();
-    let v3: Vec<i64> = (0..297).map(|i| 3000 + i * 3).collect();
+    cost_models_salted(0)
+}
+
+/// `salt` shifts every value: two protocol-parameter sets with different salts have different language
+/// views (and script-data hashes) for the same language
+pub fn cost_models_salted(salt: i64) -> HashMap<u8, Vec<i64>> {
+    let v1: Vec<i64> = (0..166).map(|i| 1000 + i * 7 + salt).collect();
+    let v2: Vec<i64> = (0..175).map(|i| 2000 + i * 5 + salt).collect();
+    let v3: Vec<i64> = (0..297).map(|i| 3000 + i * 3 + salt).collect();
     HashMap::from([(0, v1), (1, v2), (2, v3)])
 }
 
@@ -35,16 +41,18 @@ pub struct PP {
     pub coins_per_utxo_byte: u64,
     pub extra_fees: Option<u64>,
     pub cost_models: Vec<u8>,
+    /// see `cost_models_salted`
+    pub cost_salt: i64,
 }
 
 impl Default for PP {
     fn default() -> Self {
-        PP { mainnet: false, a: 44, b: 155_381, coins_per_utxo_byte: 4310, extra_fees: None, cost_models: vec![0, 1, 2] }
+        PP { mainnet: false, a: 44, b: 155_381, coins_per_utxo_byte: 4310, extra_fees: None, cost_models: vec![0, 1, 2], cost_salt: 0 }
     }
 }
 
 pub fn compiler(pp: &PP) -> Compiler {
-    let all = cost_models();
+    let all = cost_models_salted(pp.cost_salt);
     let pparams = PParams {
         network: if pp.mainnet { tx3_cardano::Network::Mainnet } else { tx3_cardano::Network::Testnet },
         min_fee_coefficient: pp.a,
